@@ -45,8 +45,8 @@ def gen_case(rng, cid):
         if valid and m and n and rng.random() < 0.4: mA, nA2 = m + rng.randint(0, 2), n + rng.randint(0, 2)      # a leading block (explicit m, n)
         args['A'] = operand(rng, mA, nA2, 'ds', tcs, bad)
         if (mA, nA2) != (m, n): args['m'] = {'int': m}; args['n'] = {'int': n}
-        args['x'] = {'mat': [args['A'].get('mat', args['A'].get('sp'))[0], ox + max(0, (lx - 1) * abs(ix) + 1 if lx else 0), 1]}
-        args['y'] = {'mat': [args['A'].get('mat', args['A'].get('sp'))[0], oy + max(0, (ly - 1) * abs(iy) + 1 if ly else 0), 1]}
+        args['x'] = {'mat': [args['A'].get('mat', args['A'].get('sp'))[0], max(0, ox + max(0, (lx - 1) * abs(ix) + 1 if lx else 0)), 1]}
+        args['y'] = {'mat': [args['A'].get('mat', args['A'].get('sp'))[0], max(0, oy + max(0, (ly - 1) * abs(iy) + 1 if ly else 0)), 1]}
         if not valid:
             for v in ('x', 'y'):
                 if rng.random() < 0.4: args[v]['mat'][1] = max(0, args[v]['mat'][1] + rng.choice([-2, -1, 1]))
@@ -74,7 +74,7 @@ def gen_case(rng, cid):
         if valid and n and rng.random() < 0.4: nA = n + rng.randint(1, 2)          # the leading n x n block of a larger matrix (explicit n)
         args['A'] = operand(rng, nA, nA, 'ds', tcs, bad)
         tc = args['A'].get('mat', args['A'].get('sp'))[0]
-        args['x'] = {'mat': [tc, ox + ((n - 1) * abs(ix) + 1 if n else 0), 1]}; args['y'] = {'mat': [tc, oy + ((n - 1) * abs(iy) + 1 if n else 0), 1]}
+        args['x'] = {'mat': [tc, max(0, ox + ((n - 1) * abs(ix) + 1 if n else 0)), 1]}; args['y'] = {'mat': [tc, max(0, oy + ((n - 1) * abs(iy) + 1 if n else 0)), 1]}
         if nA != n: args['n'] = {'int': n}
         if not valid:
             for v in ('x', 'y'):
@@ -96,12 +96,48 @@ def gen_case(rng, cid):
 def show(case):
     return 'base.%s(%s)' % (case['routine'], ', '.join('%s=%s' % (k, list(v.values())[0]) for k, v in case['args'].items()))
 
+def base_model(ctx):
+    """parsed argument checks of base.gemv / base.symv (cwrap2lean.gen_base) with their keyword -> C variable maps"""
+    import re, sys
+    sys.path.insert(0, os.path.join(vlib.VERIF, 'tools', 'translate'))
+    import cwrap2lean
+    table = getattr(ctx, 'table_base', None) or cwrap2lean.gen_base()
+    src = cwrap2lean.strip_pp(open(os.path.join(vlib.REPO, 'src', 'C', 'base.c')).read())
+    out = {}
+    for r in table:
+        m = re.search(r'PyObject\s*\*\s*%s\s*\(.*?PyArg_ParseTupleAndKeywords\(args, kwrds,\s*"[^"]*",\s*kwlist,(.*?)\)\)' % r['name'], src, flags=re.S)
+        cvars = [v.strip().lstrip('&') for v in m.group(1).split(',')]
+        r['kwmap'] = dict(zip(r['kwlist'], [v[:-1] if v.endswith('_') else v for v in cvars]))
+        out[r['name'].replace('base_', '')] = r
+    return out, cwrap2lean
+
+def model_decision(r, cw, case):
+    """ideal evaluation of the translated checks on this call: ('reject', cls) | ('none',) | ('call', env)"""
+    env = {}
+    for v, d in r['ints'].items(): env[v] = d
+    for v, d in r['chars'].items(): env[v] = d
+    env['trans'] = env.get('trans', 78); env['uplo'] = env.get('uplo', 76)
+    for kwn, cv in r['kwmap'].items():
+        a = case['args'].get(kwn)
+        if cv in ('A', 'x', 'y'):
+            tc, m_, n_ = 'd', 0, 0; ismat = issp = False
+            if a is not None and 'mat' in a: (tc, m_, n_), ismat = a['mat'], True
+            elif a is not None and 'sp' in a: (tc, m_, n_), issp = a['sp'][:3], True
+            env[cv] = 1
+            env[(cv, 'isMat')] = ismat; env[(cv, 'isSp')] = issp; env[(cv, 'id')] = 'idz'.index(tc)
+            env[(cv, 'len')] = m_ * n_; env[(cv, 'nrows')] = m_; env[(cv, 'ncols')] = n_
+        elif a is not None and ('int' in a or 'chr' in a):
+            v = list(a.values())[0]; env[cv] = ord(v) if isinstance(v, str) else int(v)
+    env['ao'] = 0; env['bo'] = 0
+    return cw.eval_stmts(r['stmts'], dict(env), cint=False)
+
 def base_probes(ctx, rng, gb, prop='C19'):
     """prop = 'C19': faults are reported; prop = 'C16': sparse / dense disagreements are reported"""
     n = 6000 if ctx.quick() else 120000
     w = Worker(gb)
     stat = {}; per = {}
     cid = 7 * 10**6
+    models, cw = base_model(ctx) if prop == 'C19' else ({}, None)
     corpus = [dict(c, id=8 * 10**6 + i, valid=True) for i, c in enumerate(json.load(open(os.path.join(vlib.VERIF, 'tools', 'corr', 'c19_corpus.json')))['base'])]
     try:
         for it in range(n + len(corpus)):
@@ -118,6 +154,15 @@ def base_probes(ctx, rng, gb, prop='C19'):
                 ctx.violation('c16:sparse-dense-differ:' + case['routine'], '%s: the result with sparse operands differs from the result on their dense images' % show(case), case)
             if res == 'ccs-invalid' and prop == 'C16':
                 ctx.violation('c16:ccs-invalid:' + case['routine'], '%s leaves a sparse argument with invalid compressed-column arrays' % show(case), case)
+            # decision of the translated checks of gemv / symv (Gen/BaseWrap.lean) vs the real wrapper
+            if prop == 'C19' and case['routine'] in models and res in ('ok', 'TypeError', 'ValueError', 'NotImplementedError', 'ArithmeticError'):
+                try: dec = model_decision(models[case['routine']], cw, case)
+                except (KeyError, ZeroDivisionError): dec = None
+                if dec is not None:
+                    stat['model:' + dec[0]] = stat.get('model:' + dec[0], 0) + 1
+                    exp = dec[1] if dec[0] == 'reject' else 'ok' if dec[0] == 'none' else None
+                    if exp is not None and res != exp:
+                        ctx.violation('c19:decision-differs:base.' + case['routine'], '%s: the real wrapper gives %s, the checks as translated give %s' % (show(case), res, exp), case)
             key = 'ok' if res == 'ok' else 'exception' if res not in ('twin-differs', 'ccs-invalid') else res
             stat[key] = stat.get(key, 0) + 1
             if res == 'ok': per[case['routine']] = per.get(case['routine'], 0) + 1
@@ -145,7 +190,7 @@ def rindex(rng, hi):
 
 def gen_ctor(rng, cid):
     r = rng.choice(['matrix', 'matrix', 'spmatrix', 'spmatrix', 'sparse', 'spdiag', 'add', 'sub', 'mul', 'div', 'pow', 'iadd', 'imul', 'neg', 'abs', 'trans',
-                    'ctrans', 'size', 'V', 'real', 'imag'])
+                    'ctrans', 'size', 'V', 'real', 'imag', 'exp', 'log', 'sqrt', 'sin', 'cos', 'mulf', 'divf', 'maxf', 'minf'])
     pos, kw = [], {}
     anym = lambda: rng.choice([rmat(rng), rsp(rng), rnum(rng)]) if rng.random() < 0.9 else rlist(rng)
     if r == 'matrix':
@@ -173,6 +218,8 @@ def gen_ctor(rng, cid):
         pos = [rng.choice([{'t': 'list', 'v': [rng.choice([rmat(rng, 'dz'), rsp(rng), rnum(rng)]) for _ in range(rng.randint(0, 4))]}, rmat(rng), rsp(rng), rnum(rng)])]
     elif r in ('add', 'sub', 'mul', 'div', 'pow', 'iadd', 'imul'): pos = [rng.choice([rmat(rng), rsp(rng)]), anym()]
     elif r in ('neg', 'abs', 'trans', 'ctrans', 'real', 'imag'): pos = [rng.choice([rmat(rng), rsp(rng)])]
+    elif r in ('exp', 'log', 'sqrt', 'sin', 'cos'): pos = [rng.choice([rmat(rng), rmat(rng, 'dz'), rsp(rng), rnum(rng)])]
+    elif r in ('mulf', 'divf', 'maxf', 'minf'): pos = [anym() for _ in range(rng.randint(1, 3))]
     elif r == 'size': pos = [rng.choice([rmat(rng), rsp(rng)]), {'t': 'tuple', 'v': [N(rng.choice([0, 1, 2, 3, 4, 6, 8, 12, -1])), N(rng.choice([0, 1, 2, 3, 4, 6, -2]))]}]
     elif r == 'V': pos = [rsp(rng), rng.choice([rmat(rng), rnum(rng), rlist(rng, 0)])]
     return {'kind': 'ctor', 'id': cid, 'routine': r, 'pos': pos, 'kw': kw}
